@@ -210,7 +210,8 @@ def scan(repo=None):
         for vi, src in enumerate(BODY[name]):
             if _dump_fn(stripped) == _tmpl(src): variant = vi
         if variant is None:
-            raise TranslateError('PythonTranslator.%s: body is not one of the layouts the Coq printer models:\n%s' % (name, ast.unparse(stripped)))
+            raise TranslateError('PythonTranslator.%s: body is not one of the layouts the Coq printer models:\n%s' % (
+                name, '\n'.join(ast.unparse(x) for x in body)))
         return own, thr, variant
 
     own, threshold, kind_ok = {}, {}, {}
